@@ -211,9 +211,13 @@ class ParserState:
     @contextmanager
     def suppress_failures(self) -> Iterator[ParserState]:
         """A context manager that prevents rules contributing to failures."""
+        # Implicit rules can nest (trivia inside a `!` rule reached from
+        # WHITESPACE or COMMENT): leaving the inner block must not re-enable
+        # failures for the rest of the outer one.
+        previous = self._suppress_failures
         self._suppress_failures = True
         yield self
-        self._suppress_failures = False
+        self._suppress_failures = previous
 
     @contextmanager
     def tag(self, tag_: str) -> Iterator[ParserState]:
